@@ -55,8 +55,10 @@ theorem C08_getIdx_is_indexing {α} (xs : List α) (i : Nat) : getIdx xs (i : In
 
 /-- A step of 0 is an error when applied to an array … -/
 theorem C08_step_zero_is_error {N : Type} [NumOps N] (ft : List FnEntry) (xs : List (Val N)) (a b : Option Int) :
-    ∃ e, Interp.eval ft (.slice a b (some 0)) (.arr xs) = .err e :=
-  ⟨.other "Invalid slice, step cannot be 0", by simp [Interp.eval, Slice.slice, computeSliceParams, stepOf]⟩
+    ∃ e, Interp.eval ft (.slice a b (some 0)) (.arr xs) = .err e := by
+  by_cases h : (9223372036854775807 : Int) < xs.length
+  · exact ⟨.other "unreachable: len(slice) exceeds MaxInt64", by simp [Interp.eval, Slice.slice, h]⟩
+  · exact ⟨.other "Invalid slice, step cannot be 0", by simp [Interp.eval, Slice.slice, computeSliceParams, stepOf, h]⟩
 
 /-- … and slicing anything that is not an array yields null, whatever the parameters. -/
 theorem C08_non_array_is_null {N : Type} [NumOps N] (ft : List FnEntry) (d : Val N) (a b c : Option Int)
